@@ -276,8 +276,17 @@ func runMapSet(c MSCase) (res msResult) {
 			}
 		}
 		for i, t := range txns {
-			if err := checkTxn(fmt.Sprintf("step %d: open map txn #%d (%s)", step, i, t.origin), t.txn, "a", t.want); err != nil {
-				return fail("maptxn", err)
+			// only point reads here: iterating a transaction freezes its nodes
+			// (txnID bump) and would hide in-place mutation of shared state
+			if t.txn.Len() != len(t.want) {
+				return fail("maptxn", fmt.Errorf("step %d: open map txn #%d (%s): Len()=%d, model %d", step, i, t.origin, t.txn.Len(), len(t.want)))
+			}
+			for _, k := range msKeys {
+				v, ok := t.txn.Get(k)
+				wv, wok := t.want[k]
+				if ok != wok || (ok && v != wv) {
+					return fail("maptxn", fmt.Errorf("step %d: open map txn #%d (%s): Get(%q)=%d,%v, model %d,%v", step, i, t.origin, k, v, ok, wv, wok))
+				}
 			}
 		}
 		return nil
